@@ -133,4 +133,154 @@ theorem deterministicK_range (hmac : Bytes → Bytes → Bytes) (fuel d z k : Na
   · exact detkLoop_range hmac _ _ _ _ h
   · cases h
 
+/-! ### DER -/
+
+/-- the loop of Signature.der with its comparisons written out -/
+def stripS : Bytes → Option Bytes
+  | [] => none
+  | b0 :: rest =>
+    if b0.toNat = 0 then
+      match rest with
+      | [] => none
+      | b1 :: _ => if b1.toNat ≥ 128 then some (b0 :: rest) else stripS rest
+    else some (b0 :: rest)
+
+theorem stripS_cons_cons (b0 b1 : UInt8) (t : Bytes) : stripS (b0 :: b1 :: t) =
+    if b0.toNat = 0 then (if b1.toNat ≥ 128 then some (b0 :: b1 :: t) else stripS (b1 :: t))
+    else some (b0 :: b1 :: t) := by rw [stripS]
+
+theorem derStrip_cons_cons (i : Nat) (b0 b1 : UInt8) (t : Bytes) : derStrip i (b0 :: b1 :: t) =
+    if cmpAt Gen.derCmp i b0.toNat then
+      (if cmpAt Gen.derCmp (i + 1) b1.toNat then some (b0 :: b1 :: t) else derStrip i (b1 :: t))
+    else some (b0 :: b1 :: t) := by rw [derStrip]
+
+theorem derStrip_eq (i : Nat) (hi : i = 1 ∨ i = 4) (l : Bytes) : derStrip i l = stripS l := by
+  induction l with
+  | nil => rfl
+  | cons b0 rest ih =>
+    cases rest with
+    | nil => rcases hi with rfl | rfl <;> simp [derStrip, stripS, cmpAt, Gen.derCmp, cmpOp]
+    | cons b1 t =>
+      rw [derStrip_cons_cons, stripS_cons_cons, ih]
+      rcases hi with rfl | rfl <;> simp [cmpAt, Gen.derCmp, cmpOp]
+
+/-- DER content octets of a positive INTEGER `n`: big-endian, first octet below 0x80 (positive),
+    and no superfluous leading zero octet (a leading 00 is followed by an octet ≥ 0x80) -/
+def MinimalInt (R : Bytes) (n : Nat) : Prop :=
+  beToNat R = n ∧ ∃ b0 t, R = b0 :: t ∧ b0.toNat < 128 ∧
+    (b0.toNat = 0 → ∃ b1 t', t = b1 :: t' ∧ 128 ≤ b1.toNat)
+
+theorem beToNat_cons_zero (b0 : UInt8) (rest : Bytes) (h : b0.toNat = 0) :
+    beToNat (b0 :: rest) = beToNat rest := by
+  simp [beToNat, beToNatAux, h]
+
+theorem stripS_spec : ∀ l : Bytes, beToNat l ≠ 0 → (∀ b t, l = b :: t → b.toNat < 128) →
+    ∃ R, stripS l = some R ∧ MinimalInt R (beToNat l) ∧ R.length ≤ l.length := by
+  intro l
+  induction l with
+  | nil => intro h; exact absurd rfl h
+  | cons b0 rest ih =>
+    intro hne hhead
+    have hb0 := hhead b0 rest rfl
+    by_cases h0 : b0.toNat = 0
+    · cases rest with
+      | nil => exact absurd (by simp [beToNat, beToNatAux, h0]) hne
+      | cons b1 t =>
+        by_cases h1 : b1.toNat ≥ 128
+        · refine ⟨b0 :: b1 :: t, by rw [stripS_cons_cons]; simp [h0, h1], ⟨rfl, b0, b1 :: t, rfl, hb0, fun _ => ⟨b1, t, rfl, h1⟩⟩, Nat.le_refl _⟩
+        · have e := beToNat_cons_zero b0 (b1 :: t) h0
+          obtain ⟨R, hR, hmin, hlen⟩ := ih (by rw [← e]; exact hne) (by intro b t' hbt; cases hbt; omega)
+          refine ⟨R, by rw [stripS_cons_cons]; simp [h0, h1, hR], by rw [e]; exact hmin, by simp at hlen ⊢; omega⟩
+    · exact ⟨b0 :: rest, by simp [stripS, h0], ⟨rfl, b0, rest, rfl, hb0, fun h => absurd h h0⟩, Nat.le_refl _⟩
+
+theorem derInt_spec (i : Nat) (hi : i = 0 ∨ i = 3) (n : Nat) (h1 : 1 ≤ n) (h2 : n < 2 ^ 256) :
+    ∃ R, derInt i n = some ([2, UInt8.ofNat R.length] ++ R) ∧ MinimalInt R n ∧ R.length ≤ 33 := by
+  have h2' : n < 256 ^ 32 := by
+    have e : (256 : Nat) ^ 32 = 2 ^ 256 := by decide
+    omega
+  have hlen := natToBE'_length 32 n
+  have hval := beToNat_natToBE' h2'
+  cases hbin : natToBE' 32 n with
+  | nil => rw [hbin] at hlen; cases hlen
+  | cons b0 t =>
+    rw [hbin] at hlen hval
+    have hi' : i + 1 = 1 ∨ i + 1 = 4 := by omega
+    have hc : cmpAt Gen.derCmp i b0.toNat = decide (b0.toNat ≥ 128) := by
+      rcases hi with rfl | rfl <;> simp [cmpAt, Gen.derCmp, cmpOp]
+    simp only [derInt, natToBE, h2', if_true, hbin, hc, derStrip_eq _ hi']
+    by_cases hb : b0.toNat ≥ 128
+    · obtain ⟨R, hR, hmin, hl⟩ := stripS_spec (0 :: b0 :: t)
+        (by rw [beToNat_cons_zero _ _ rfl, hval]; omega) (by intro b t' h; cases h; decide)
+      rw [beToNat_cons_zero _ _ rfl, hval] at hmin
+      simp only [List.length_cons] at hl hlen
+      refine ⟨R, ?_, hmin, by omega⟩
+      have : R.length < 256 := by omega
+      simp [hb, hR, this]
+    · obtain ⟨R, hR, hmin, hl⟩ := stripS_spec (b0 :: t) (by rw [hval]; omega)
+        (by intro b t' h; cases h; omega)
+      rw [hval] at hmin
+      simp only [List.length_cons] at hl hlen
+      refine ⟨R, ?_, hmin, by omega⟩
+      have : R.length < 256 := by omega
+      simp [hb, hR, this]
+
+theorem u8_toNat_ofNat_lt {k : Nat} (h : k < 256) : (UInt8.ofNat k).toNat = k := by
+  rw [u8_ofNat_toNat, Nat.mod_eq_of_lt h]
+
+/-- Signature.parse on the DER layout `30 L 02 |R| R 02 |S| S` -/
+theorem parseDer_layout (R S : Bytes) (hR : R ≠ []) (hS : S ≠ []) (hlr : R.length ≤ 33) (hls : S.length ≤ 33) :
+    parseDer ([0x30, UInt8.ofNat (2 + R.length + (2 + S.length))] ++
+      (([2, UInt8.ofNat R.length] ++ R) ++ ([2, UInt8.ofNat S.length] ++ S))) = some (beToNat R, beToNat S) := by
+  have m1 : (2 + R.length + (2 + S.length)) % 256 = 2 + R.length + (2 + S.length) := Nat.mod_eq_of_lt (by omega)
+  have m2 : R.length % 256 = R.length := Nat.mod_eq_of_lt (by omega)
+  have m3 : S.length % 256 = S.length := Nat.mod_eq_of_lt (by omega)
+  have n2 : R.length ≠ 0 := by cases R <;> simp_all
+  have n3 : S.length ≠ 0 := by cases S <;> simp_all
+  simp [parseDer, read1, readInt, sread, cmpAt, Gen.parseDerCmp, cmpOp, hR, hS, m1, m2, m3, n2, n3]
+  omega
+
+/-- Signature.der for `1 ≤ r, s < 2^256`: the DER layout with minimal INTEGER contents -/
+theorem der_spec (r s : Nat) (hr1 : 1 ≤ r) (hr2 : r < 2 ^ 256) (hs1 : 1 ≤ s) (hs2 : s < 2 ^ 256) :
+    ∃ R S, MinimalInt R r ∧ MinimalInt S s ∧ R.length ≤ 33 ∧ S.length ≤ 33 ∧
+      der r s = some ([0x30, UInt8.ofNat (2 + R.length + (2 + S.length))] ++
+        (([2, UInt8.ofNat R.length] ++ R) ++ ([2, UInt8.ofNat S.length] ++ S))) := by
+  obtain ⟨R, hR, mR, lR⟩ := derInt_spec 0 (Or.inl rfl) r hr1 hr2
+  obtain ⟨S, hS, mS, lS⟩ := derInt_spec 3 (Or.inr rfl) s hs1 hs2
+  refine ⟨R, S, mR, mS, lR, lS, ?_⟩
+  have hl : ([2, UInt8.ofNat R.length] ++ R ++ ([2, UInt8.ofNat S.length] ++ S)).length
+      = 2 + R.length + (2 + S.length) := by simp; omega
+  simp only [der, hR, hS, hl]
+  rw [if_pos (by omega)]
+
+theorem MinimalInt.ne_nil {R : Bytes} {n : Nat} (h : MinimalInt R n) : R ≠ [] := by
+  obtain ⟨_, b0, t, rfl, _⟩ := h
+  simp
+
+/-! ### range check and low S -/
+
+theorem verify_out_of_range (Q : Pt) (z r s : Nat) (h : r = 0 ∨ s = 0 ∨ r ≥ N ∨ s ≥ N) :
+    verify Q z r s = some false := by
+  have : rangeOK r s = false := by
+    rw [rangeOK_eq]; simp; omega
+  simp [verify, this]
+
+theorem verify_true_range (Q : Pt) (z r s : Nat) (h : verify Q z r s = some true) :
+    1 ≤ r ∧ r < N ∧ 1 ≤ s ∧ s < N := by
+  by_cases hr : rangeOK r s = true
+  · simpa [rangeOK_eq] using hr
+  · simp [verify, hr] at h
+
+/-- the `s` returned by the signing equation is at most `(N - 1) / 2` -/
+theorem signWith_lowS (k d z r s : Nat) (h : signWith k d z = some (r, s)) : s ≤ (N - 1) / 2 := by
+  simp only [signWith] at h
+  split at h
+  · cases h
+  · next x y hx =>
+    simp only [Option.some.injEq, Prod.mk.injEq, highS_eq, decide_eq_true_eq] at h
+    obtain ⟨_, hs⟩ := h
+    have hlt : (z + x * d) * powmod k (N - 2) N % N < N := Nat.mod_lt _ N_pos
+    generalize (z + x * d) * powmod k (N - 2) N % N = s0 at hs hlt
+    simp only [N, Gen.secpN] at *
+    split at hs <;> omega
+
 end Buidl.ECDSA
